@@ -77,22 +77,28 @@ theorem parseNs_dec (n : Nat) (h : n ≤ 65535) (tbl : Option (List Text)) :
     parseNs (110 :: 115 :: 61 :: dec n) tbl = some (n, []) := by
   simp [parseNs, List.isPrefixOf, atoiNs_dec n h]
 
-/-- the parser undoes the namespace wrapper (needs: no ';' in an unwrapped body) -/
-theorem parseExpanded_withNs (ns l : Nat) (body : Text) (hns : ns ≤ 65535) (hl : l ≠ 59)
-    (hbody : ns = 0 → 59 ∉ body) (tbl : Option (List Text)) :
+/-- the parser undoes the namespace wrapper (needs: no ';' in an unwrapped body,
+    unless the body follows the string prefix "s=", which is never split) -/
+theorem parseExpanded_withNs (ns l : Nat) (body : Text) (hns : ns ≤ 65535) (hl : l ≠ 59) (hl' : l ≠ 110)
+    (hbody : ns = 0 → l ≠ 115 → 59 ∉ body) (tbl : Option (List Text)) :
     parseExpanded (withNs ns l body) tbl = parseIdent ns [] (l :: 61 :: body) := by
   unfold withNs
   by_cases z : ns = 0
   · subst z
-    have hno : (59 : Nat) ∉ l :: 61 :: body := by
-      intro h
-      rcases List.mem_cons.mp h with e | h
-      · exact hl e.symm
-      · rcases List.mem_cons.mp h with e | h
-        · omega
-        · exact hbody rfl h
-    simp only [if_true, parseExpanded, splitFirst_none hno, parseNs_default]
-    simp
+    by_cases hs : l = 115
+    · subst hs
+      simp [parseExpanded, List.isPrefixOf, parseNs_default]
+    · have hno : (59 : Nat) ∉ l :: 61 :: body := by
+        intro h
+        rcases List.mem_cons.mp h with e | h
+        · exact hl e.symm
+        · rcases List.mem_cons.mp h with e | h
+          · omega
+          · exact hbody rfl hs h
+      have hpre : [115, 61].isPrefixOf (l :: 61 :: body) = false := by
+        simp [List.isPrefixOf]; intro e; exact absurd e.symm hs
+      simp only [if_true, parseExpanded, hpre, splitFirst_none hno]
+      simp [parseNs_default]
   · simp only [z, if_false]
     have hno : (59 : Nat) ∉ 110 :: 115 :: 61 :: dec ns := by
       intro h
@@ -106,8 +112,10 @@ theorem parseExpanded_withNs (ns l : Nat) (body : Text) (hns : ns ≤ 65535) (hl
     have hs : [110, 115, 61] ++ dec ns ++ [59] ++ (l :: 61 :: body) =
         (110 :: 115 :: 61 :: dec ns) ++ 59 :: (l :: 61 :: body) := by simp
     rw [hs]
-    simp only [parseExpanded, splitFirst_app _ hno, parseNs_dec ns hns]
-    simp
+    have hpre : [115, 61].isPrefixOf ((110 :: 115 :: 61 :: dec ns) ++ 59 :: (l :: 61 :: body)) = false := by
+      simp [List.isPrefixOf]
+    simp only [parseExpanded, hpre, splitFirst_app _ hno]
+    simp [parseNs_dec ns hns]
 
 /-! ### the identifier branches -/
 
@@ -222,7 +230,9 @@ theorem parseExpanded_nsu (u rest : Text) (tbl : List Text) (hu : 59 ∉ u) :
     · exact hu h
   have hs : [110, 115, 117, 61] ++ u ++ 59 :: rest = (110 :: 115 :: 117 :: 61 :: u) ++ 59 :: rest := by simp
   rw [hs]
-  simp only [parseExpanded, splitFirst_app _ hno]
+  have hpre : [115, 61].isPrefixOf ((110 :: 115 :: 117 :: 61 :: u) ++ 59 :: rest) = false := by
+    simp [List.isPrefixOf]
+  simp only [parseExpanded, hpre, splitFirst_app _ hno]
   simp only [List.cons_append, reduceCtorEq, if_false, parseNs, List.isPrefixOf, beq_self_eq_true, Bool.and_self,
     Bool.true_and, if_true, List.drop_succ_cons, List.drop_zero]
   cases tbl.findIdx? (· == u) <;> rfl
@@ -239,7 +249,9 @@ theorem parseExpanded_nsIdx (k : Nat) (hk : k ≤ 65535) (rest : Text) (tbl : Op
     · exact dec_no_semicolon k h
   have hs : [110, 115, 61] ++ dec k ++ 59 :: rest = (110 :: 115 :: 61 :: dec k) ++ 59 :: rest := by simp
   rw [hs]
-  simp only [parseExpanded, splitFirst_app _ hno, parseNs_dec k hk]
-  simp
+  have hpre : [115, 61].isPrefixOf ((110 :: 115 :: 61 :: dec k) ++ 59 :: rest) = false := by
+    simp [List.isPrefixOf]
+  simp only [parseExpanded, hpre, splitFirst_app _ hno]
+  simp [parseNs_dec k hk]
 
 end Opcua.NodeIdText
